@@ -8,6 +8,7 @@ import BV.Drv.C07
 import BV.Drv.C06
 import BV.Drv.C08
 import BV.Drv.C11
+import BV.Drv.C09
 
 def dispatch (line : String) : String :=
   match (line.trimAscii.toString.splitOn " ").filter (· ≠ "") with
@@ -23,6 +24,7 @@ def dispatch (line : String) : String :=
   | "c06" :: rest => BV.Drv.C06.handle rest
   | "c08" :: rest => BV.Drv.C08.handle rest
   | "c11" :: rest => BV.Drv.C11.handle rest
+  | "c09" :: rest => BV.Drv.C09.handle rest
   | _ => "bad-op"
 
 partial def loop (h : IO.FS.Stream) (out : IO.FS.Stream) : IO Unit := do
